@@ -18,13 +18,14 @@ RULE = ("the 913 official draft-07 cases first, then generated draft-07 document
         "both forms, additionalItems, $id-as-anchor, $ref with siblings) x 6 instances, roots declaring each supported and several "
         "unsupported $schema values, remote documents with and without their own $schema referenced from the root or from a "
         "subschema; fan-in: one shared definition of failing-and-swallowed $ref alternatives applied 2..16 times at one instance location; "
-        "~3 %: pairs (draft-07 document, the same document plus minContains / maxContains / unevaluatedItems / unevaluatedProperties) "
-        "x 9 instances, which must get equal verdicts (keywords of later drafts are unknown keywords under draft-07). "
+        "~3 %: pairs (draft-07 document, the same document plus minContains / maxContains / unevaluatedItems / unevaluatedProperties / "
+        "$dynamicRef — dangling or not, with or without $dynamicAnchor) x 9 instances, which must get the same outcome of Resolve and "
+        "equal verdicts (keywords of later drafts are unknown keywords under draft-07). "
         "Non-trivial: >= 2 keywords or a remote document; distinct = distinct operation text")
 TRUSTED = ["regular expressions are a parameter of the model"]
-ASSUMPTIONS = ["draft-07 vocabulary, plus minContains / maxContains / unevaluatedItems / unevaluatedProperties as unknown keywords "
-               "(ignored: Spec.vocab, C02.draft7_ignores_later_keywords); the other 2020-12-only keywords ($anchor, $dynamicRef, "
-               "$dynamicAnchor, prefixItems, dependentRequired, dependentSchemas) are outside the quantifier"]
+ASSUMPTIONS = ["draft-07 vocabulary, plus minContains / maxContains / unevaluatedItems / unevaluatedProperties / $dynamicRef as unknown "
+               "keywords (ignored: Spec.vocab, C02.draft7_ignores_later_keywords, C02.draft7_ignores_dynamicRef); the other 2020-12-only "
+               "keywords ($anchor, $dynamicAnchor, prefixItems, dependentRequired, dependentSchemas) are outside the quantifier"]
 
 SCHEMA_VALUES = [None, gs.D2020_URI] + gs.D7_URIS + [
     "http://json-schema.org/draft-07/schema", "https://json-schema.org/draft-07/schema", "http://json-schema.org/draft-06/schema#",
@@ -113,20 +114,64 @@ def ref_sibling_case(rng):
 
 
 D27_KW = ["minContains", "maxContains", "unevaluatedProperties", "unevaluatedItems"]
+# finding D28 (fixed): $dynamicRef is a keyword of 2020-12 too; Resolve used to resolve it (and fail when it dangles) and the evaluator
+# used to apply it under draft-07
+D28_KW = ["$dynamicRef"]
+
+
+def _dynref_pair(rng, doc, doc2):
+    """add a $dynamicRef to doc2 only: to an existing definition, to a definition bearing $dynamicAnchor (by pointer or by the anchor
+    name, which draft-07 does not register), or dangling (a plain name, a pointer to nothing, a remote document nobody can load)"""
+    form = rng.choice(["pointer", "pointer", "anchor-pointer", "anchor-name", "dangling-name", "dangling-pointer", "dangling-remote"])
+    target = rng.choice([Obj([("type", "string")]), Obj([("type", "number")]), False, Obj([("required", ["zz"])])])
+    if form in ("pointer", "anchor-pointer", "anchor-name"):
+        if form != "pointer":
+            target = Obj([("$dynamicAnchor", "da")] + (list(target.kvs) if isinstance(target, Obj) else [("not", True)]))
+        for d in (doc, doc2):
+            defs = d.get("definitions")
+            defs = Obj(list(defs.kvs)) if isinstance(defs, Obj) else Obj()
+            defs.set("dx28", target)
+            d.set("definitions", defs)
+        if rng.random() < 0.3 and form != "pointer":
+            # the anchor sits at the root as well (where a 2020-12 validator would start its dynamic scope)
+            doc.set("$dynamicAnchor", "da"); doc2.set("$dynamicAnchor", "da")
+        ref = "#da" if form == "anchor-name" else "#/definitions/dx28"
+    elif form == "dangling-name":
+        ref = "#nosuch"
+    elif form == "dangling-pointer":
+        ref = "#/definitions/nosuch28"
+    else:
+        ref = "http://nowhere.invalid/absent.json#/x"
+    where = rng.choice(["root", "root", "sub"])
+    if where == "sub":
+        # in a subschema applied to every instance
+        sub = Obj([("$dynamicRef", ref)])
+        a = list(doc.get("allOf")) if isinstance(doc.get("allOf"), list) else []
+        doc.set("allOf", a + [Obj()]); doc2.set("allOf", a + [sub])
+    else:
+        doc2.set("$dynamicRef", ref)
+    return form + "/" + where
 
 
 def later_draft_case(rng):
-    """draft-07: keywords that only LATER drafts define (minContains, maxContains, unevaluatedProperties, unevaluatedItems) are
-    unknown keywords under draft-07 and must not assert. The pair (document without them, same document with them) must get the same
-    verdicts. (Finding D27, fixed: the evaluator used to apply these four also when the draft is draft-07; it now tests the draft
-    as it does for prefixItems, dependentRequired and dependentSchemas. Lean: C02.draft7_ignores_later_keywords.)"""
+    """draft-07: keywords that only LATER drafts define (minContains, maxContains, unevaluatedProperties, unevaluatedItems, $dynamicRef)
+    are unknown keywords under draft-07 and must not assert — nor make Resolve fail. The pair (document without them, same document with
+    them) must get the same outcome and verdicts. (Finding D27, fixed: the evaluator used to apply these four also when the draft is
+    draft-07; it now tests the draft as it does for prefixItems, dependentRequired and dependentSchemas. Finding D28, fixed: resolveRefs
+    resolved $dynamicRef — failing on a dangling one — and the evaluator applied it whatever the draft. Lean:
+    C02.draft7_ignores_later_keywords, C02.draft7_ignores_dynamicRef.)"""
     c = gs.Ctx(rng, "7", depth=rng.choice([1, 2]))
     doc = gs.gen_document(c, rng.choice(gs.D7_URIS))
     if not isinstance(doc, Obj):
         doc = Obj([("$schema", rng.choice(gs.D7_URIS))])
     doc2 = Obj(list(doc.kvs))
-    k = rng.choice(D27_KW)
-    if k == "minContains":
+    k = rng.choice(D27_KW + D28_KW + D28_KW)
+    if k == "$dynamicRef":
+        if doc.get("$ref") is not None:
+            # a draft-07 $ref object ignores its siblings anyway: keep the root plain
+            doc = Obj([(kk, v) for kk, v in doc.kvs if kk != "$ref"]); doc2 = Obj(list(doc.kvs))
+        k = "$dynamicRef:" + _dynref_pair(rng, doc, doc2)
+    elif k == "minContains":
         doc.set("contains", Obj([("type", "number")])); doc2.set("contains", Obj([("type", "number")]))
         doc2.set(k, gs.Num(str(rng.choice([0, 2, 3]))))
     elif k == "maxContains":
@@ -206,7 +251,7 @@ def gen(rng, tier, n):
         r = rng.random()
         if r < 0.2:
             if rng.random() < 0.15:
-                ops.append(later_draft_case(rng))      # keywords of later drafts under draft-07 (finding D27, fixed): ~3 %
+                ops.append(later_draft_case(rng))      # keywords of later drafts under draft-07 (findings D27, D28, fixed): ~3 %
                 continue
             ops.append(remote_case(rng))
             continue
@@ -254,8 +299,9 @@ def judge(o, go, m):
                 return st, side + ": " + d
         ga, gb = go.get("a") or {}, go.get("b") or {}
         if (ga.get("outcome"), ga.get("verdicts")) != (gb.get("outcome"), gb.get("verdicts")):
-            # a draft-07 validator ignores the keyword: the two documents must get the same verdicts (finding D27, fixed)
-            return "violation:later-draft-keyword", "a keyword of a later draft (%s) asserts under draft-07: %r vs %r" % (
-                (o.get("meta") or {}).get("later"), ga.get("verdicts"), gb.get("verdicts"))
+            # a draft-07 validator ignores the keyword: the two documents must get the same outcome (of Resolve too) and verdicts
+            # (findings D27, D28, fixed)
+            return "violation:later-draft-keyword", "a keyword of a later draft (%s) asserts under draft-07: %r %r vs %r %r" % (
+                (o.get("meta") or {}).get("later"), ga.get("outcome"), ga.get("verdicts"), gb.get("outcome"), gb.get("verdicts"))
         return "agree", ""
     return vjudge.judge_validate(o, go, m)
